@@ -49,7 +49,7 @@ def oz(x):
 
 
 def observe(coll, source_ids, search_tags, batches, store, extra_paths=(),
-            rng=None, registrations=None):
+            rng=None, registrations=None, seq_part_tags=None):
     """Call every accessor of the real collection `coll`; return the Coq case
     term, the canonical answers and the list of violated identities.
 
@@ -66,6 +66,7 @@ def observe(coll, source_ids, search_tags, batches, store, extra_paths=(),
     for p in extra_paths:
         pid(p)
     uid_of = {}
+    tagstr = {}
     attr = {}          # uid -> (path id, tag, seq, section)
     coq_batches = []
     n = 0
@@ -82,6 +83,7 @@ def observe(coll, source_ids, search_tags, batches, store, extra_paths=(),
             s = None if r.section_id is None else sid(r.section_id)
             path = pid(source_ids.get(r.source_id))
             attr[n] = (path, t, d, s)
+            tagstr[n] = tag
             parts = "[" + "; ".join(
                 f"({int(p[0])}, {-1 if p[1] is None else int(p[1])})"
                 for p in r.data) + "]"
@@ -313,6 +315,26 @@ def observe(coll, source_ids, search_tags, batches, store, extra_paths=(),
             if not fresh and not set(flat) <= set(exp):
                 fail('sections-foreign-result', tag=ti, path=pi,
                      sections=secs, expected_union=exp)
+    # results of a sequence search, known by the part tag of the search
+    # that produced them, must all be in the sections of that tag
+    if seq_part_tags:
+        for u in every:
+            if tagstr[u] in seq_part_tags and (attr[u][2] is None
+                                               or attr[u][3] is None):
+                fail('sequence-result-in-no-section', result=u,
+                     tag=tagstr[u], sequence_id=attr[u][2],
+                     section_id=attr[u][3],
+                     note='a result of a sequence part carries no '
+                          'sequence/section id and is skipped by the '
+                          'sequence lookups')
+        for t, ti, secs in zip(stags, stag_ids, answers[0]['stags']):
+            if secs is None:
+                continue
+            exp = sorted(u for u in all_ if seq_part_tags.get(tagstr[u]) == t)
+            got = sorted(u for v in secs.values() for u in v)
+            if fresh and got != exp:
+                fail('sequence-result-in-no-section', tag=ti, sections=secs,
+                     results_of_the_sequence_searches=exp)
     # path filter commutes: lookup(path=p) = lookup() restricted to p
     glob_ = answers[0]
     for p, pi in zip(paths, path_ids):
@@ -452,10 +474,18 @@ def synthetic(rng, shape):
         batches.insert(rng.randint(0, len(batches)), [])
     cat = FakeCatalog(source_ids, search_tags)
     coll = SearchResultsCollection(cat, store)
+    was_reset = rng.random() < 0.3
+    if was_reset:
+        # history: fill, reset(), fill again - every view (len() included)
+        # must be that of the later batches alone
+        coll.add([mk(0, 'A', None, None, 1) for _ in range(rng.randint(1,
+                                                                       4))])
+        coll.reset()
     for b in batches:
         coll.add(b)
     try:
         obs = observe(coll, source_ids, search_tags, batches, store, rng=rng)
+        obs['meta']['reset_history'] = was_reset
     except Exception as exc:                                  # noqa
         return {'raised': f"{type(exc).__name__}: {exc}",
                 'trace': traceback.format_exc()[-1500:],
@@ -516,14 +546,25 @@ def real_run(cfg, workdir):
                   SearchDef(r'gamma', tag='G'),
                   SearchDef(r'delta (\S+)'),                # no tag
                   SearchDef(r'item (\d+)', tag='S')]        # tag of a sequence
-        seqs = [SequenceSearchDef(start=SearchDef(r'start (\S+)'),
-                                  body=SearchDef(r'body (\S+)'),
-                                  end=SearchDef(r'end (\S+)'), tag='S'),
-                SequenceSearchDef(start=SearchDef(r'BEGIN'),
-                                  body=SearchDef(r'item (\d+)'),
-                                  end=SearchDef(r'END'), tag='S'),
-                SequenceSearchDef(start=SearchDef(r'start (\S+)'),
-                                  body=SearchDef(r'item (\d+)'), tag='T')]
+        def part(pattern):
+            # some sequence parts do not store their contents (the result is
+            # then a bare marker: no parts, but still tag / sequence id /
+            # section id)
+            return SearchDef(pattern,
+                             store_result_contents=rng.random() < 0.6)
+
+        seqs = [SequenceSearchDef(start=part(r'start (\S+)'),
+                                  body=part(r'body (\S+)'),
+                                  end=part(r'end (\S+)'), tag='S'),
+                SequenceSearchDef(start=part(r'BEGIN'),
+                                  body=part(r'item (\d+)'),
+                                  end=part(r'END'), tag='S'),
+                SequenceSearchDef(start=part(r'start (\S+)'),
+                                  body=part(r'item (\d+)'), tag='T')]
+        parts = {}
+        for sq in seqs:
+            for pt in (sq.start_tag, sq.body_tag, sq.end_tag):
+                parts[pt] = sq.tag
         targets = paths if cfg['nfiles'] > 1 else paths[:1]
         regs = []
 
@@ -557,7 +598,7 @@ def real_run(cfg, workdir):
                     add(sd, os.path.join(d, '*'))
         coll = fs.run()
         try:
-            obs = observe_real(fs, coll, recorded, rng, regs)
+            obs = observe_real(fs, coll, recorded, rng, regs, parts)
             obs['meta']['order'] = mode
         except Exception as exc:                              # noqa
             return {'raised': f"{type(exc).__name__}: {exc}",
@@ -569,12 +610,12 @@ def real_run(cfg, workdir):
         shutil.rmtree(d, ignore_errors=True)
 
 
-def observe_real(fs, coll, recorded, rng=None, regs=None):
+def observe_real(fs, coll, recorded, rng=None, regs=None, parts=None):
     cat = fs.catalog
     obs = observe(coll, dict(cat._source_ids),               # noqa, pylint: disable=protected-access
                   {k: list(v) for k, v in cat._search_tags.items()},  # noqa, pylint: disable=protected-access
                   recorded, coll.results_store, extra_paths=fs.files,
-                  rng=rng, registrations=regs)
+                  rng=rng, registrations=regs, seq_part_tags=parts)
     obs['meta']['kind'] = 'real:' + ('mp' if len(fs.files) > 1 else 'single')
     obs['meta']['files'] = len(fs.files)
     obs['meta']['stats_results'] = fs.stats['results']
